@@ -39,6 +39,11 @@ CLAIMED = {
         text="For every rule exported by rules.common (48 of 53 encoded) and every host of the rule's families (instances and near-misses over operand ranks 0-3, [1]/[1,1] constants, inverted/eps/almost-1 constants, three constant forms incl. overridable graph inputs, attribute variants, zero-size dims): the single rule is applied with the real RewriteRuleSet; where it fires symonnx interprets host and result and z3 decides equality of all outputs for ALL input values (forward-error bound for recomputed float constants); validity for the declared opset is part of the schema-keyed interpretation.",
         note=S_NOTE + " rules.fusion (sqrt/trig identities), ConvTranspose/ConvInteger/QLinearConv variants are outside the claim and listed in evidence.",
         technique="translation validation per rule and host: symbolic ONNX semantics, z3 equivalence for all inputs, onnxruntime replay"),
+    "C09": dict(
+        category="translation_validation", design_ref="§5 C09", engine="S",
+        text="Host models (shape-computation models + rule hosts) are re-declared with symbolic input dims (shared names, distinct names for equal sizes, unnamed, leading-dim only); optimize() runs once per declared model; for every binding of <=3 symbols to {0,1,2,3,7} symonnx interprets original and optimized model at the bound shapes and z3 decides equality for all input values; a binding on which exactly one model fails is a counterexample (same accepted inputs).",
+        note=S_NOTE + " Bindings are enumerated over {0,1,2,3,7}; values under each binding are decided by z3.",
+        technique="translation validation under enumerated shape bindings: symbolic ONNX semantics, z3 equivalence, onnxruntime replay"),
     "C20": dict(
         category="other", design_ref="§5 C20", engine="X",
         text="CrossHair/z3 symbolic execution of the real save_model_with_external_data with ir.save stubbed: which initializers are uninitialised, path shape, verbose/tqdm and whether the save faults are solver variables; refusal-before-write, single call with <basename>.data, exception propagation and object identity of the initializers are decided over all combinations. Narrow: what onnx_ir.save does per file-system call is outside the claim.",
